@@ -1957,6 +1957,9 @@ func genC15(g *G, sc *Scenario, tier string) {
 				spec["kind"], spec["at"] = "truncate", g.Range(1, 2000)
 			} else {
 				spec["kind"], spec["idx"] = g.Pick(c15TokenKinds), g.Intn(8)
+				if g.P(0.25) {
+					spec["afterCont"] = true
+				}
 			}
 			sc.Ops = append(sc.Ops, Op{K: "malformed", Ents: ents, N: g.Intn(6), M: spec})
 		}
